@@ -71,6 +71,23 @@ def run(ctx):
     common.run_exact(ctx, [c for c in stops if c.expect])
     common.run_differential(ctx, [c for c in stops if not c.expect], common.proj_value,
                             classify=lambda c, r: 'a payload whose first message is malformed (or an empty payload) must be rejected' if r.startswith('ok ') else None)
+    # records at and around every plausible size limit (2^14, the 2^14+256 cap), for every content type: the limit that
+    # exists is the record cap and it does not depend on the content type
+    S = core.span
+    big = []
+    for ln in (16382, 16383, 16384, 16385, 16386, 16638, 16639, 16640):
+        for v in (0x0301, 0x0303, 0x0304):
+            hdr = lambda t: bytes([t]) + v.to_bytes(2, 'big') + ln.to_bytes(2, 'big')
+            if ln in (16384, 16640) and v == 0x0303 or ctx.thorough:
+              big.append((hdr(20) + b'\x01' * ln, 'ok 0 (Plain (Hdr 20 %d %d) [%s])' % (v, ln, ' '.join(['CCS'] * ln))))
+            if ln % 2 == 0 and (ln in (16384, 16640) and v == 0x0303 or ctx.thorough):
+                big.append((hdr(21) + b'\x01\x00' * (ln // 2), 'ok 0 (Plain (Hdr 21 %d %d) [%s])' % (v, ln, ' '.join(['(Alert 1 0)'] * (ln // 2)))))
+            big.append((hdr(22) + bytes([20]) + (ln - 4).to_bytes(3, 'big') + bytes(ln - 4), 'ok 0 (Plain (Hdr 22 %d %d) [(Hs (Finished %s))])' % (v, ln, S(9, ln - 4))))
+            big.append((hdr(23) + bytes(ln), 'ok 0 (Plain (Hdr 23 %d %d) [(App %s)])' % (v, ln, S(5, ln))))
+            for pad in (0, 16):
+                pl = ln - 3 - pad
+                big.append((hdr(24) + b'\x01' + pl.to_bytes(2, 'big') + bytes(pl + pad), 'ok 0 (Plain (Hdr 24 %d %d) [(Hb 1 %d %s)])' % (v, ln, pl, S(8, pl))))
+    common.run_exact(ctx, [enc.Case('limit_sized_records', ('tls_plaintext',), b, [], None, expect=e) for b, e in big])
     # every unknown content type is rejected, for any payload
     unk = []
     for t in range(256):
@@ -83,7 +100,7 @@ def run(ctx):
                             classify=lambda c, r: 'unknown content type must be rejected with an error' if not r.startswith('error') else None)
     common.lean_failure_violation(ctx, ok)
     return ctx.finish(LEVEL,
-        rule='records of every content type built from 1..n messages by the independent encoder (exact values, all versions), the derived two-step call on the same payload (exact: same messages, spans shifted, padding as remainder), payloads followed by a malformed message (exact: messages before it, tail as remainder), first-message-malformed and empty payloads (class: rejected), all 251 unknown content types (class: error), single-field corruptions and truncations (differential); distinct = (family, outcome shape)',
+        rule='records of every content type built from 1..n messages by the independent encoder (exact values, all versions), the derived two-step call on the same payload (exact: same messages, spans shifted, padding as remainder), payloads followed by a malformed message (exact: messages before it, tail as remainder), first-message-malformed and empty payloads (class: rejected), all 251 unknown content types (class: error), records of every content type sized at and around 2^14 and the 2^14+256 cap (exact), single-field corruptions and truncations (differential); distinct = (family, outcome shape)',
         checker_cmd='cd /verif/lean && lake build TlsModel.Props.C03', assumptions=[])
 
 
